@@ -47,10 +47,14 @@ def run_task(task):
     try:
         cfg = task["cfg"]
         rng = np.random.default_rng([task["seed"], cfg["id"], 18])
-        rows, samples = inputs.make_table(rng, cfg["n_mut"], 2, string_ids=True, junk_from=cfg.get("junk_from"))
+        if cfg.get("branching"):
+            rows, samples = inputs.branching_table(rng, cfg["n_mut"])
+        else:
+            rows, samples = inputs.make_table(rng, cfg["n_mut"], 2, string_ids=True, junk_from=cfg.get("junk_from"))
         in_file = os.path.join(tmp, "in.tsv")
         inputs.write_table(rows, in_file)
-        args = ["run", "-i", in_file, "-n", str(cfg["iters"]), "-b", "1", "--num-particles", "5", "--grid-size", "11",
+        args = ["run", "-i", in_file, "-n", str(cfg["iters"]), "-b", "1", "--num-particles", str(cfg.get("particles", 5)),
+                "--grid-size", str(cfg.get("grid", 11)), "-d", cfg.get("density", "beta-binomial"),
                 "--seed", str(cfg["run_seed"]), "--num-chains", str(cfg["chains"]), "-p", cfg["proposal"],
                 "-l", str(cfg["outlier_prob"]), "-s", str(cfg["subtree"]), "--print-freq", "1000"]
         if cfg["clustered"]:
@@ -68,9 +72,12 @@ def run_task(task):
         if env_spec["hashseed"] == "random":
             env["PYTHONHASHSEED"] = "random"
         prefix = []
-        if env_spec.get("one_core"):
+        if env_spec.get("one_core") or env_spec.get("cores"):
             cores = sorted(os.sched_getaffinity(0))
-            prefix = ["taskset", "-c", str(cores[task["slot"] % len(cores)])]
+            k = int(env_spec.get("cores", 1))
+            first = (task["slot"] * k) % len(cores)
+            sel = [cores[(first + j) % len(cores)] for j in range(k)]
+            prefix = ["taskset", "-c", ",".join(str(x) for x in sel)]
         if env_spec.get("nice"):
             prefix = ["nice", "-n", "10"] + prefix
         try:
@@ -261,11 +268,19 @@ def run(ctx):
                        "n_mut": 12, "iters": 40, "subtree": 0.5, "run_seed": 78 + ctx.seed, "stress": True, "junk_from": 5})
         stress.append({"id": 102, "proposal": "bootstrap", "outlier_prob": 0.5, "clustered": False, "chains": 2,
                        "n_mut": 9, "iters": 40, "subtree": 1.0, "run_seed": 79 + ctx.seed, "stress": True, "junk_from": 5})
+    # fewer cores than chains (one core, two cores) against all cores, on a longer run with deep coverage: anything that
+    # makes a chain's arithmetic depend on which process ran before it in the same worker, or on the worker count
+    stress.append({"id": 110, "proposal": "semi-adapted", "outlier_prob": 0.0, "clustered": False, "chains": 3, "n_mut": 6,
+                   "iters": 80, "subtree": 0.2, "run_seed": 31 + ctx.seed, "stress": "cores", "branching": True,
+                   "density": "binomial", "grid": 101, "particles": 8})
     cfgs = cfgs + stress
     tasks = []
     for cfg in cfgs:
         envs = environments(cfg["chains"], quick)
-        if cfg.get("stress"):
+        if cfg.get("stress") == "cores":
+            envs = [{"name": "all cores", "hashseed": 0}, {"name": "one core", "hashseed": 0, "one_core": True},
+                    {"name": "two cores", "hashseed": 0, "cores": 2}]
+        elif cfg.get("stress"):
             envs = [{"name": "hashseed %s" % h, "hashseed": h} for h in (0, 1, 2, 3)]
         for env in envs:
             tasks.append({"seed": ctx.seed, "cfg": cfg, "env": env, "slot": len(tasks)})
